@@ -6,3 +6,4 @@ INVARIANT C26_Edges
 INVARIANT C26_Partition
 INVARIANT C26_Components
 INVARIANT C26_Distances
+INVARIANT C26_WeightedDistances
